@@ -4,6 +4,7 @@
 -/
 import SeataModel.Driver.C12
 import SeataModel.Driver.C13
+import SeataModel.Driver.C04
 
 open Seata.Driver
 
@@ -11,6 +12,7 @@ def dispatch (prop : String) (ws : List String) : String :=
   match prop with
   | "C12" => C12.handle ws
   | "C13" => C13.handle ws
+  | "C04" => C04.handle ws
   | _ => "bad-prop"
 
 partial def loop (hin : IO.FS.Stream) (hout : IO.FS.Stream) : IO Unit := do
